@@ -13,7 +13,8 @@ class C12(Prop):
             "under that id (no id appears that was never reported). non-trivial = a creation after a deletion AND a creation "
             "after a reopen.")
     MODES = ("url",)
-    LONG_BIAS = 0.1
+    LONG_BIAS = 0.2
+    BACKENDS = ("file", "file", "memory")
     WEIGHTS = {"page": 4, "pages": 2, "links": 1, "batch": 2, "again": 0, "create": 5, "delete": 4, "addprefix": 1,
                "rmprefix": 1, "move": 1, "rule": 2, "unrule": 1, "reopen": 4, "clear": 1}
     QUICK = (40, 22)
